@@ -23,6 +23,9 @@ func init() {
 
 func c10() []*Ob {
 	return []*Ob{
+		{Prop: "C10", ID: "C10.10", Engine: "PAIR(two sites)", Floor: 1,
+			Desc:  "the format with the strict parser is never tried with the lenient one: extractDocTime picks the dedicated parser by comparing the layout string, or — if it goes by position (first entry strict, the rest time.Parse) — the first entry of consts.TimeFormats is the ES format. With both relaxed, a comma-separated or over-long fraction that the strict parser rejects is accepted by time.Parse and the id carries it",
+			Check: func(c *Ctx) { timeFormatByNameOrPosition(c) }},
 		{Prop: "C10", ID: "C10.8", Engine: "TABLE(format ranges)", Floor: 1,
 			Desc: "the hand-written parser of the \"2006-01-02 15:04:05\" format accepts what time.Parse accepts for it: the constant (from, to) ranges parseESTime checks its two-digit fields against are, as a multiset, month 1..12, day 1..31, hour 0..23 and twice 0..59 (minute, second) — a second field allowed up to 60 makes \"18:04:60\", which no supported format parses, a valid time that time.Date normalises to the next minute: the id carries an invented time instead of the receive time. The rule applies while parseESTime checks its fields through one range helper with constant bounds; a differently built parser is not judged by it",
 			Check: func(c *Ctx) {
@@ -167,10 +170,25 @@ func c10() []*Ob {
 							continue
 						}
 						sinks := c.P.MutatingSinks(od, 3)
+						// a line that is written to only after it was turned down (the skipped non-object that is shortened for the
+						// log) is not a stored document: what matters is a write that the processing/storing of the same line can follow
+						procCalls := CallsIn(fn, Callee("(*proxy/bulk.processor).Process"))
+						harmful := 0
 						for i, s := range sinks {
+							stillUsed := len(procCalls) == 0 || s.Instr.Parent() != fn
+							for _, pc := range procCalls {
+								if followsWithoutRedefinition(s.Instr, pc.(ssa.Instruction), od) {
+									stillUsed = true
+								}
+							}
+							if !stillUsed {
+								c.Site(s.Instr.Pos(), "the reader's line is written to only after it was rejected (%s)", s.How)
+								continue
+							}
+							harmful++
 							c.Violation(keyN("alias:processDocsToCompressor:doc", i), s.Instr.Pos(), "the line returned by the reader reaches a mutating sink: %s", s.How)
 						}
-						if len(sinks) == 0 {
+						if harmful == 0 && len(sinks) == 0 {
 							c.Site(rn.Pos(), "the reader's line reaches no mutating sink")
 						}
 					}
@@ -557,8 +575,10 @@ func c10() []*Ob {
 					}
 					if limited {
 						c.Site(ret.Pos(), "the returned document is capacity-limited")
+					} else if !readerLineIsAppendedTo(c) {
+						c.Site(ret.Pos(), "the returned document is not capacity-limited, and nothing downstream appends to the reader's line")
 					} else {
-						c.Violation("alias:ReadDoc:cap-limited", ret.Pos(), "ReadDoc returns a view of the reader's buffer without limiting its capacity: a later append would overwrite the next line in the buffer")
+						c.Violation("alias:ReadDoc:cap-limited", ret.Pos(), "ReadDoc returns a view of the reader's buffer without limiting its capacity, and the ingestor appends to that view: the append overwrites the next line in the buffer")
 					}
 					if len(rd) > 0 {
 						exceeded := ResultN(rd[0], 1)
@@ -833,4 +853,27 @@ func retKeyOf(call *ssa.Call) string {
 		}
 	}
 	return CallName(call)
+}
+
+// readerLineIsAppendedTo: some consumer of the bulk reader's line appends to (a re-slice of) it.
+func readerLineIsAppendedTo(c *Ctx) bool {
+	fn := c.P.Func("(*proxy/bulk.Ingestor).processDocsToCompressor")
+	if fn == nil {
+		return true // cannot tell: keep the requirement
+	}
+	for _, rn := range CallsIn(fn, func(cl ssa.CallInstruction) bool { return CallName(cl) == "dynamic:readNext" }) {
+		od := ResultN(rn, 0)
+		if od == nil {
+			continue
+		}
+		for _, s := range c.P.MutatingSinks(od, 3) {
+			if cl, ok := s.Instr.(*ssa.Call); ok && CallName(cl) == "builtin.append" {
+				return true
+			}
+			if strings.Contains(s.How, "append") {
+				return true
+			}
+		}
+	}
+	return false
 }
